@@ -9,6 +9,7 @@
   Property theorems only; the work is in Mwp/Lemmas/WriteSet.lean.
 -/
 import Mwp.Lemmas.WriteSet
+import Mwp.Lemmas.RunThms
 namespace Mwp.Props.C13
 open Mwp
 
@@ -129,5 +130,113 @@ example : ∃ mat g1, [(0, 0), (0, 1), (1, 0)].foldlM (RelFix.loopStep (fEx.vars
     ∃ e' g2, Relation.loopFixCell true (Matrix.get mat 1 1) (Matrix.get mat 0 1) g1 =
       .ok ([⟨.m, []⟩, ⟨.i, [(0, 0), (2, 1)]⟩, ⟨.i, [(1, 0), (2, 1)]⟩], e', g2) :=
   ⟨_, _, by rfl, by rfl, _, _, by rfl⟩
+
+/-! ## "as one of many functions in a file": the file-level drivers (`Mwp/Model/Run.lean`)
+    assemble the result per function, independently of the other functions -/
+
+/-- the entry of a function is filed under the function's own name (the removal pass of the
+    syntax gate keeps it) -/
+theorem file_entry_is_named_after_function (f : Node) (fin strict : Bool) (r : Analysis.FuncRes)
+    (h : Run.runOne f fin strict = .ok (some r)) : r.name = Analysis.funcName f :=
+  Run.runOne_name f fin strict r h
+
+/-- With pairwise distinct function names, the result of `Analysis.run` on a file is the list of
+    the entries its functions give when analysed alone (`Run.runOne`), in source order: functions
+    the syntax gate refuses contribute nothing, no entry depends on another function. -/
+theorem file_results_are_per_function (fs : List Node) (fin strict : Bool)
+    (res : List (String × Analysis.FuncRes))
+    (hnd : (fs.map Analysis.funcName).Nodup) (h : Run.run fs fin strict = .ok res) :
+    res = fs.filterMap (fun f => match Run.runOne f fin strict with
+      | .ok (some r) => some (r.name, r)
+      | _ => none) :=
+  Run.run_eq_filterMap fs fin strict res hnd h
+
+/-- … in particular the entry of a function in a file is the entry it has in the file consisting
+    of it alone -/
+theorem file_entry_is_entry_alone (fs : List Node) (fin strict : Bool)
+    (res : List (String × Analysis.FuncRes))
+    (hnd : (fs.map Analysis.funcName).Nodup) (h : Run.run fs fin strict = .ok res)
+    (f : Node) (hf : f ∈ fs) (r : Analysis.FuncRes) (hr : Run.runOne f fin strict = .ok (some r)) :
+    (r.name, r) ∈ res ∧ Run.run [f] fin strict = .ok [(r.name, r)] :=
+  Run.run_entry_alone fs fin strict res hnd h f hf r hr
+
+/-- Without the hypothesis on names: a later definition with the same name replaces the earlier
+    entry in place (`d[name] = r`), otherwise the entry is appended. -/
+theorem file_duplicate_name_replaces (fs : List Node) (f : Node) (fin strict : Bool) :
+    Run.run (fs ++ [f]) fin strict = (do
+      let acc ← Run.run fs fin strict
+      match ← Run.runOne f fin strict with
+      | none => pure acc
+      | some r => pure (Run.dictSet acc r.name r)) :=
+  Run.run_dup fs f fin strict
+
+/-- The analysis of a file raises iff the analysis of one of its functions, taken alone, raises:
+    one function neither masks nor causes a failure of another. -/
+theorem file_failures_are_per_function (fs : List Node) (fin strict : Bool) :
+    (∃ res, Run.run fs fin strict = .ok res) ↔ ∀ f ∈ fs, ∃ o, Run.runOne f fin strict = .ok o :=
+  Run.run_ok_iff fs fin strict
+
+/-- Loop mode: `LoopAnalysis.run` succeeds iff `Run.loopsOfFunc` does on every function; with
+    pairwise distinct names its result has one entry per function, in source order, holding the
+    loops that function gives when taken alone; and the loops of a function are, in discovery
+    order, what the gate (`Run.loopOne`) leaves of each discovered loop taken alone. -/
+theorem file_loop_results_are_per_function (fs : List Node) (strict : Bool) :
+    ((∃ res, Run.runLoops fs strict = .ok res) ↔ ∀ f ∈ fs, ∃ ls, Run.loopsOfFunc f strict = .ok ls) ∧
+    (∀ res, (fs.map Analysis.funcName).Nodup → Run.runLoops fs strict = .ok res →
+      res = fs.map (fun f => (Analysis.funcName f,
+        match Run.loopsOfFunc f strict with | .ok ls => ls | .error _ => []))) ∧
+    (∀ f ls, Run.loopsOfFunc f strict = .ok ls ↔
+      ∃ loops, Syntax.loopsN f = .ok loops ∧ (∀ l ∈ loops, ∃ o, Run.loopOne l strict = .ok o) ∧
+        ls = loops.filterMap (fun l => match Run.loopOne l strict with
+          | .ok (some n) => some n
+          | _ => none)) :=
+  ⟨Run.runLoops_ok_iff fs strict, fun res hnd h => Run.runLoops_eq_map fs strict res hnd h,
+    fun f ls => Run.loopsOfFunc_ok_iff f strict ls⟩
+
+/-! non-vacuity: a file with `int f(int x,int y){ while (x < 10) { x = y + y; } }` and
+    `int g(int x,int a){ x = a[1]; x = a; }` -/
+
+private def fileF : Node :=
+  .funcDef (.decl (some "f") (.funcDecl (some (.paramList
+    [.decl (some "x") .typeDecl none, .decl (some "y") .typeDecl none]))) none)
+    (.compound (some [.while_ (.binop "<" (.id "x") (.const "int" "10"))
+      (.compound (some [.assign "=" (.id "x") (.binop "+" (.id "y") (.id "y"))]))]))
+private def fileGBody (l : List Node) : Node :=
+  .funcDef (.decl (some "g") (.funcDecl (some (.paramList
+    [.decl (some "x") .typeDecl none, .decl (some "a") .typeDecl none]))) none)
+    (.compound (some l))
+private def fileG : Node :=
+  fileGBody [.assign "=" (.id "x") (.arrayRef (.id "a") (.const "int" "1")), .assign "=" (.id "x") (.id "a")]
+/-- `g` with the unsupported statement removed -/
+private def fileG' : Node := fileGBody [.assign "=" (.id "x") (.id "a")]
+
+local macro "cov_simp" : tactic => `(tactic|
+  simp [fileF, fileG, fileG', fileGBody, Syntax.coverage, Syntax.covN, Syntax.covList, Syntax.covSlot,
+    Syntax.covBody, Syntax.allowRhs, Syntax.allowOperand, Syntax.nestedOk, Gen.incDec, Node.isId,
+    Node.isUnop, Node.isBinop, Node.isConst, Node.isCast, Node.rmCast, Gen.binOps, Gen.uOps, bind,
+    Except.bind, pure, Except.pure])
+private theorem fileF_cov : Syntax.coverage fileF = .ok (0, fileF) := by cov_simp
+private theorem fileG_cov : Syntax.coverage fileG = .ok (1, fileG') := by cov_simp
+
+example : ([fileF, fileG].map Analysis.funcName).Nodup := by decide
+-- not strict: two entries, in source order; `g` is analysed without its unsupported statement
+example : (Run.run [fileF, fileG] true false).toOption.map
+    (fun res => res.map fun e => (e.1, e.2.infinite, e.2.variables))
+    = some [("f", false, ["x", "y"]), ("g", false, ["a", "x"])] := by
+  simp only [Run.run_eq_foldlM, List.foldlM_cons, List.foldlM_nil, Run.runStep,
+    Run.runOne_of_coverage_zero _ _ _ _ fileF_cov, (Run.runOne_of_coverage_pos _ _ _ _ fileG_cov).2]
+  decide
+-- strict: `g` is refused, `f` keeps exactly its entry
+example : (Run.run [fileF, fileG] true true).toOption.map
+    (fun res => res.map fun e => (e.1, e.2.infinite, e.2.variables))
+    = some [("f", false, ["x", "y"])] := by
+  simp only [Run.run_eq_foldlM, List.foldlM_cons, List.foldlM_nil, Run.runStep,
+    Run.runOne_of_coverage_zero _ _ _ _ fileF_cov, (Run.runOne_of_coverage_pos _ _ _ _ fileG_cov).1]
+  decide
+-- the theorem applied to this file: the entry of `f` is its entry in the one-function file
+example (res : List (String × Analysis.FuncRes)) (h : Run.run [fileF, fileG] true false = .ok res)
+    (r : Analysis.FuncRes) (hr : Run.runOne fileF true false = .ok (some r)) :
+    (r.name, r) ∈ res ∧ Run.run [fileF] true false = .ok [(r.name, r)] :=
+  file_entry_is_entry_alone [fileF, fileG] true false res (by decide) h fileF (by simp) r hr
 
 end Mwp.Props.C13
